@@ -23,7 +23,9 @@ def num_text(x):
         return 'MinusInfinity'
     s = repr(abs(x))
     if 'e' in s:
-        s = format(Fraction(abs(x)).limit_denominator(10 ** 12).__float__(), 'f')
+        # the language has no exponent notation: the shortest decimal that reads back as x, written out in full
+        from decimal import Decimal
+        s = format(Decimal(s), 'f')
     if s.endswith('.0'):
         s = s[:-2]
     return ('-' + s) if (x < 0 or (x == 0 and str(x).startswith('-'))) else s
